@@ -278,6 +278,10 @@ def gen_engine_spec(rng, rated, curve_emissions=None, dual=None, speed=None):
     if curve_emissions:
         species = [str(s) for s in rng.choice(["SOX", "NOX", "CO", "PM", "HC", "CH4", "N2O"], size=int(rng.integers(1, 4)), replace=False)]
         e["emissions"] = [{"species": s, "points": [[p[0], p[1]] for p in _as_points(gen_value_curve(rng, 0.05, 12))]} for s in species]
+        for em in e["emissions"]:       # some species rise steeply with load (the curve's extrapolation below its first point then goes negative)
+            if len(em["points"]) > 1 and rng.random() < 0.25:
+                top = max(q[1] for q in em["points"])
+                em["points"] = [[q[0], float(np.round(top * q[0] * q[0], 3))] for q in em["points"]]
         if "NOX" in species and rng.random() < 0.7:
             e["nox"] = "CURVE"
     if dual is None:
